@@ -388,6 +388,23 @@ def native_union_roundtrips(out):
         (t.Dict[str, t.Union[TM, DT]], [{'a': '2024-02-29T13:45:10', 'b': '13:45:10'}]),
     ]
 
+    import enum
+
+    class Color(str, enum.Enum):          # members are strings: a later str member reads the member itself, but not as a Color
+        RED = 'red'
+        BLUE = 'blue'
+
+    class Level(enum.IntEnum):
+        LOW = 1
+        HIGH = 2
+
+    class Paint(pane.PaneBase):
+        c: t.Union[Color, str] = 'none'
+        levels: t.List[t.Union[Level, float]] = pane.field(default_factory=list)
+    cases += [(t.Union[Color, str], ['red', 'other', 'blue']), (t.Union[Level, int], [1, 5]), (t.List[t.Union[Color, str]], [['red', 'x', 'blue']]),
+              (t.Dict[str, t.Union[Color, int]], [{'a': 'red', 'b': 3}]), (t.Optional[t.Union[Color, str]], ['red', None]), (t.Union[Level, float], [2, 2.5]),
+              (Paint, [{'c': 'red', 'levels': [1, 1.5]}, {'c': 'grey'}])]
+
     class Event(pane.PaneBase):
         name: str
         when: t.Union[D, DT]
